@@ -160,23 +160,30 @@ func HarnessC10_cross() {
 		if id == want {
 			matches++
 		}
-		others = append(others, map[string]any{"id": id, "t": vCopy(T)})
+		// the target sits two levels down; a literal key "t.u" next to it
+		// must not be mistaken for the dotted path
+		others = append(others, map[string]any{"id": id, "t": map[string]any{"u": vCopy(T)}, "t.u": "decoy"})
 	}
 	var host any
 	form := ndChoice(4)
+	// $path as a dotted string or as a list
+	var path any = "t.u"
+	if ndChoice(2) == 1 {
+		path = []any{"t", "u"}
+	}
 	switch form {
 	case 0:
 		h := vCopy(local).(map[string]any)
-		h["$merge"] = map[string]any{"$match": map[string]any{"id": want}, "$path": "t"}
+		h["$merge"] = map[string]any{"$match": map[string]any{"id": want}, "$path": path}
 		host = h
 	case 1:
 		h := vCopy(local).(map[string]any)
-		h["$merge"] = []any{map[string]any{"id": want}, "t"}
+		h["$merge"] = []any{map[string]any{"id": want}, "t", "u"}
 		host = h
 	case 2:
-		host = map[string]any{"$replace": map[string]any{"$match": map[string]any{"id": want}, "$path": "t"}}
+		host = map[string]any{"$replace": map[string]any{"$match": map[string]any{"id": want}, "$path": path}}
 	default:
-		host = map[string]any{"$replace": []any{map[string]any{"id": want}, "t"}}
+		host = map[string]any{"$replace": []any{map[string]any{"id": want}, "t", "u"}}
 	}
 	refDocs := append(vCopy(others).([]any), map[string]any{"h": host})
 	for i := range refDocs {
